@@ -20,7 +20,7 @@
 //   T clock <state of every resource>                          at every Engine::on_time_advance
 //   S actor clock <state of every resource>                    'sample' op
 //   E actor clock NAME=joules ...                              'energy' op (hosts with a wattage_per_state, all links if link_energy)
-//   XS id clock host / XE id clock status                      start / end of an exec as seen by the issuing actor (status ok|hostfail|canceled)
+//   XS id clock host / XE id clock status start_time finish_time                      start / end of an exec as seen by the issuing actor (status ok|hostfail|canceled)
 //   AX start|end name clock                                    Exec::on_start_cb / on_completion_cb
 //   CS id clock / CE id clock status                           comm start / end (status ok|netfail)
 //   OP actor clock op...                                       control ops (pstate/off/on/suspend/...) when executed
@@ -40,6 +40,7 @@ static std::vector<sg4::Host*> hosts;
 static std::vector<sg4::Link*> links;
 static std::vector<sg4::Host*> ehosts; // hosts with an energy profile
 static bool with_link_energy = false;
+static bool with_load        = true; // Host::get_load() dereferences a null constraint under cpu/optim:TI
 static std::map<std::string, sg4::ExecPtr> execs;
 static std::map<std::string, sg4::CommPtr> comms;
 
@@ -47,7 +48,7 @@ static void print_state()
 {
   for (auto const* h : hosts)
     printf(" h %s %.17g %.17g %d %lu %.17g", h->get_cname(), h->get_speed(), h->get_available_speed(), h->is_on() ? 1 : 0,
-           h->get_pstate(), h->get_load());
+           h->get_pstate(), with_load ? h->get_load() : -1.0);
   for (auto const* l : links)
     printf(" l %s %.17g %.17g %d %.17g", l->get_cname(), l->get_bandwidth(), l->get_latency(), l->is_on() ? 1 : 0,
            l->get_load());
@@ -114,7 +115,8 @@ static void run_actor(const std::string& me, const std::vector<Op>& ops)
         } catch (const simgrid::CancelException&) {
           st = "canceled";
         }
-        printf("XE %s %.17g %s\n", t[1].c_str(), sg4::Engine::get_clock(), st);
+        printf("XE %s %.17g %s %.17g %.17g\n", t[1].c_str(), sg4::Engine::get_clock(), st, x->get_start_time(),
+               x->get_finish_time());
       }
     } else if (k == "xwait") {
       auto x         = execs.at(t[1]);
@@ -126,7 +128,8 @@ static void run_actor(const std::string& me, const std::vector<Op>& ops)
       } catch (const simgrid::CancelException&) {
         st = "canceled";
       }
-      printf("XE %s %.17g %s\n", t[1].c_str(), sg4::Engine::get_clock(), st);
+      printf("XE %s %.17g %s %.17g %.17g\n", t[1].c_str(), sg4::Engine::get_clock(), st, x->get_start_time(),
+             x->get_finish_time());
     } else if (k == "xsuspend" || k == "xresume" || k == "xcancel" || k == "xmigrate") {
       auto x = execs.at(t[1]);
       printf("OP %s %.17g %s %s %s\n", me.c_str(), sg4::Engine::get_clock(), k.c_str(), t[1].c_str(),
@@ -156,7 +159,8 @@ static void run_actor(const std::string& me, const std::vector<Op>& ops)
         } catch (const simgrid::NetworkFailureException&) {
           st = "netfail";
         }
-        printf("CE %s %.17g %s\n", t[1].c_str(), sg4::Engine::get_clock(), st);
+        printf("CE %s %.17g %s %.17g %.17g\n", t[1].c_str(), sg4::Engine::get_clock(), st, c->get_start_time(),
+               c->get_finish_time());
       }
     } else if (k == "cwait") {
       auto c         = comms.at(t[1]);
@@ -166,7 +170,8 @@ static void run_actor(const std::string& me, const std::vector<Op>& ops)
       } catch (const simgrid::NetworkFailureException&) {
         st = "netfail";
       }
-      printf("CE %s %.17g %s\n", t[1].c_str(), sg4::Engine::get_clock(), st);
+      printf("CE %s %.17g %s %.17g %.17g\n", t[1].c_str(), sg4::Engine::get_clock(), st, c->get_start_time(),
+             c->get_finish_time());
     } else if (k == "pstate" || k == "off" || k == "on") {
       auto* h = sg4::Host::by_name(t[1]);
       printf("OP %s %.17g %s %s %s\n", me.c_str(), sg4::Engine::get_clock(), k.c_str(), t[1].c_str(),
@@ -209,6 +214,8 @@ int main(int argc, char** argv)
   for (int i = 1; i < argc; i++)
     if (std::string(argv[i]) == "--no-time-trace")
       trace_time = false;
+    else if (std::string(argv[i]) == "--no-load")
+      with_load = false;
 
   std::vector<std::string> lines;
   std::string line;
